@@ -24,6 +24,9 @@ raster object does. Mirrors, as the code is now:
   what `setNoDataValue` put there since — `None` included, which is then what those cells hold. All four errors arise at the first cell of a band
   (a raster has at least one cell), so a band is either rewritten completely or left as it was, and the bands
   before the failing one have been rewritten;
+* `Raster.setNoDataValue(v)` : a two-line setter, `self.__noDataValue = v` — it does not touch a band: a band written by
+  `computeAggregates` keeps the marker of THAT call in its cells without value (and, of course, every genuine aggregate,
+  whatever it is equal to); `Raster.getAFMap(name)` (`getBand`) reads a band by name;
 * `Track.hasAnalyticalFeature` / `getObsAnalyticalFeature` for the names used: `uid` (the track's uid, tested
   first by the raster), the built-in `x`, `y`, `idx`, otherwise the track's own analytical features;
 * `algo/summarising.py` `summarize` : `listify`, the two argument checks (an empty feature list raises — a
@@ -66,6 +69,9 @@ structure RState (α : Type) where
   noData : Option α
   bands : List (Band α)
   values : Option (Vals α)
+
+/-- `Raster.getAFMap(name)`: the band of that name — the first one, names are unique (`addBand`) — `none` = `KeyError` -/
+def getBand (s : RState α) (name : List String) : Option (Band α) := s.bands.find? (fun b => b.name == name)
 
 /-- `Raster.__init__` -/
 def initState (g : Grid α) (noData : Option α) : RState α := { g := g, noData := noData, bands := [], values := none }
@@ -195,6 +201,11 @@ inductive Cmd (α : Type)
 
 def Cmd.isAdd : Cmd α → Bool
   | .add _ _ => true
+  | _ => false
+
+/-- `computeAggregates` is the only call that writes into the grid of a band -/
+def Cmd.isCompute : Cmd α → Bool
+  | .compute => true
   | _ => false
 
 def step (floor : α → Int) (s : RState α) : Cmd α → RState α × Option Err
